@@ -99,7 +99,7 @@ TABLE = {
     "band_format": ("BAND_FORMAT", "--band-format", "value"), "qpoints_format": ("QPOINTS_FORMAT", "--qpoints-format", "value"),
     "include_all": ("INCLUDE_ALL", "--include-all", "true"), "fc_calc": ("FC_CALCULATOR", "--fc-calc", "value"),
     # phonopy-load only (NAC and FC_SYMMETRY default to on there)
-    "tdisp": ("TDISP", "--td", "true"), "mass": ("MASS", "--mass", "value"), "hdf5": ("HDF5", "--hdf5", "true"),
+    "tdisp": ("TDISP", "--td", "true"), "tdispmat": ("TDISPMAT", "--tdm", "true"), "mass": ("MASS", "--mass", "value"), "hdf5": ("HDF5", "--hdf5", "true"),
     "nonac": ("NAC", "--nonac", "false"), "no_sym_fc": ("FC_SYMMETRY", "--no-sym-fc", "false"),
 }
 
@@ -130,7 +130,7 @@ def _fmt(v):
 
 
 def gen_post_step(rng, w, has_born, prev_wrote_fc, force_cmd=None):
-    mode = rng.choice(["mesh", "band", "qpoints", "dos", "pdos", "tprop", "writefc", "band_mesh", "tdisp"] + (["readfc"] if prev_wrote_fc else []))
+    mode = rng.choice(["mesh", "band", "qpoints", "dos", "pdos", "tprop", "writefc", "band_mesh", "tdisp", "tdispmat"] + (["readfc"] if prev_wrote_fc else []))
     s = {}
     cmd = rng.choice(["phonopy", "phonopy", "phonopy-load"])
     if force_cmd:
@@ -138,7 +138,7 @@ def gen_post_step(rng, w, has_born, prev_wrote_fc, force_cmd=None):
         # files by documented design, so they would not be a fault there
         cmd = force_cmd
     mesh = [rng.randint(1, 3) for _ in range(3)]
-    if mode in ("mesh", "dos", "pdos", "tprop", "band_mesh", "tdisp"):
+    if mode in ("mesh", "dos", "pdos", "tprop", "band_mesh", "tdisp", "tdispmat"):
         s["mesh"] = _fmt(mesh)
         if rng.random() < 0.4:
             s["gc"] = True
@@ -153,8 +153,8 @@ def gen_post_step(rng, w, has_born, prev_wrote_fc, force_cmd=None):
             s["gv"] = True
         if rng.random() < 0.25:
             s["mesh_format"] = "hdf5"
-    elif mode == "tdisp":
-        s["tdisp"] = True
+    elif mode in ("tdisp", "tdispmat"):
+        s[mode] = True
         s["tmin"], s["tmax"], s["tstep"] = 0, rng.choice([300, 600]), rng.choice([100, 150])
         # without a frequency cut-off the acoustic modes at Gamma (+-1e-8 THz of rounding noise) enter as 1/omega: the
         # written numbers are then ~1e14 and noise, not a property of either front-end
@@ -423,6 +423,14 @@ def child_reference(args):
         ph.run_mesh(mesh, with_eigenvectors=bool(s.get("eigvecs")), with_group_velocities=bool(s.get("gv")), **mkw)
         d = ph.get_mesh_dict()
         out.update(q=d["qpoints"], w=d["weights"], freq=d["frequencies"], gv=d["group_velocities"], vecs=d["eigenvectors"])
+    elif mode == "tdispmat":
+        ph.run_mesh(mesh, with_eigenvectors=True, is_mesh_symmetry=False, is_gamma_center=mkw["is_gamma_center"], shift=mkw.get("shift"))
+        ph.run_thermal_displacement_matrices(t_min=s.get("tmin", 0), t_max=s.get("tmax", 1000), t_step=s.get("tstep", 10), freq_min=s.get("fmin"), freq_max=s.get("fmax"))
+        d = ph.get_thermal_displacement_matrices_dict()
+        m = np.array(d["thermal_displacement_matrices"])
+        # the six printed components per atom: xx yy zz yz xz xy (real parts)
+        six = np.stack([m[..., 0, 0], m[..., 1, 1], m[..., 2, 2], m[..., 1, 2], m[..., 0, 2], m[..., 0, 1]], axis=-1).real
+        out.update(T=d["temperatures"], tdm=six)
     elif mode == "tdisp":
         ph.run_mesh(mesh, with_eigenvectors=True, is_mesh_symmetry=False, is_gamma_center=mkw["is_gamma_center"], shift=mkw.get("shift"))
         ph.run_thermal_displacements(t_min=s.get("tmin", 0), t_max=s.get("tmax", 1000), t_step=s.get("tstep", 10), freq_min=s.get("fmin"), freq_max=s.get("fmax"))
@@ -513,6 +521,11 @@ def parse_outputs(path, step):
             out["freq"] = np.array([[b["frequency"] for b in p["band"]] for p in y["phonon"]])
             out["gv"] = np.array([[b["group_velocity"] for b in p["band"]] for p in y["phonon"]]) if "group_velocity" in y["phonon"][0]["band"][0] else None
             out["_dec"] = simfs.printed_decimals(open(j("mesh.yaml")).read())
+    elif mode == "tdispmat":
+        y = _yaml(j("thermal_displacement_matrices.yaml"))
+        td = y["thermal_displacement_matrices"]
+        out.update(T=np.array([t["temperature"] for t in td]), tdm=np.array([t["displacement_matrices"] for t in td]),
+                   _dec=simfs.printed_decimals(open(j("thermal_displacement_matrices.yaml")).read()))
     elif mode == "tdisp":
         y = _yaml(j("thermal_displacements.yaml"))
         td = y["thermal_displacements"]
@@ -850,7 +863,19 @@ def execute(spec):
                 if (rA["code"] != 0) != (rB["code"] != 0):
                     V("route-swap-differs", "%s:exit-status" % label, a=rA["code"], b=rB["code"], argv_a=rA["argv"], argv_b=rB["argv"], out_a=rA["stdout"][-400:], out_b=rB["stdout"][-400:], exc_a=rA["exc"], exc_b=rB["exc"])
                 else:
-                    V("workflow-step-failed", label, code=rA["code"], exc=rA["exc"], stdout=rA["stdout"][-500:], argv=rA["argv"])
+                    # both routes fail alike: a faithful front-end fails where the library call itself fails on this input
+                    lib_error = None
+                    try:
+                        sub(child_reference, (spec, step_eff, refdir.path))
+                    except RuntimeError as e:
+                        lib_error = str(e)[-300:]
+                    finally:
+                        shutil.rmtree(refdir.path, ignore_errors=True)
+                    if lib_error is None:
+                        V("workflow-step-failed", label, code=rA["code"], exc=rA["exc"], stdout=rA["stdout"][-500:], argv=rA["argv"])
+                    else:
+                        probes["step_fails_in_the_library_call_too:%s" % mode] = probes.get("step_fails_in_the_library_call_too:%s" % mode, 0) + 1
+                        log.append(("both-fail", mode))
                 break
             sa, sb = dir_signature(A.path), dir_signature(B.path)
             diverged = False
@@ -877,6 +902,9 @@ def execute(spec):
             bad = []
             dget = (lambda key, default=None: None if dec is None else dec.get(key, default))
             stale_tag = "|stale-files-present" if faults else ""
+            if mode == "tdispmat":
+                cmp_num("temperature", got["T"], ref["T"], dget("temperature", 7), bad)
+                cmp_num("thermal_displacement_matrices", got["tdm"], ref["tdm"], 5, bad)
             if mode == "tdisp":
                 cmp_num("temperature", got["T"], ref["T"], dget("temperature", 7), bad)
                 cmp_num("thermal_displacements", got["tdisp"], np.asarray(ref["tdisp"]).reshape(np.asarray(got["tdisp"]).shape) if np.asarray(ref["tdisp"]).size == np.asarray(got["tdisp"]).size else ref["tdisp"], dget("displacements", 7), bad)
@@ -967,7 +995,7 @@ def shrink_candidates(spec):
         yield dict(spec, stale=[])
     for i, st in enumerate(spec["steps"]):
         for k in list(st["settings"]):
-            if k in ("mesh", "band", "qpoints", "dos", "pdos", "tprop", "writefc", "readfc", "tdisp", "cutoff_freq", "fmin", "band_points", "dos_range"):
+            if k in ("mesh", "band", "qpoints", "dos", "pdos", "tprop", "writefc", "readfc", "tdisp", "tdispmat", "cutoff_freq", "fmin", "band_points", "dos_range"):
                 continue  # mode-defining or conditioning settings (removing a cut-off creates a different, ill-conditioned case)
             ns = dict(st["settings"])
             ns.pop(k)
